@@ -34,26 +34,35 @@ def rowOk (r : Row) : Bool :=
 theorem C11_every_function_forwards_its_own_arguments :
     ∃ t, table = some t ∧ t.all rowOk = true := ⟨_, rfl, by decide⟩
 
-/-- the set of exported functions and the macro each one expands -/
+/-- the set of exported functions (the C surface), in source order up to permutation -/
+def exportedNames : List String :=
+  ["new", "new_with_params", "set_tree", "delete_leaf", "set_leaf", "get_leaf", "leaves_set", "set_next_leaf",
+   "set_leaves_from", "init_tree_with_leaves", "atomic_operation", "seq_atomic_operation", "get_root", "get_proof",
+   "prove", "verify", "generate_rln_proof", "generate_rln_proof_with_witness", "verify_rln_proof", "verify_with_roots",
+   "key_gen", "seeded_key_gen", "extended_key_gen", "seeded_extended_key_gen", "recover_id_secret", "set_metadata",
+   "get_metadata", "flush", "hash", "poseidon_hash"]
+
+/-- every documented function is exported exactly once and nothing else is (the order in the file is free) -/
 theorem C11_exported_functions :
-    table.map (·.map (fun r => (r.name, r.kind))) = some [
-      ("new", "constructor"), ("new_with_params", "constructor"), ("set_tree", "call"), ("delete_leaf", "call"),
-      ("set_leaf", "call"), ("get_leaf", "call_with_output_arg"), ("leaves_set", "direct"), ("set_next_leaf", "call"),
-      ("set_leaves_from", "call"), ("init_tree_with_leaves", "call"), ("atomic_operation", "call"),
-      ("seq_atomic_operation", "call"), ("get_root", "call_with_output_arg"), ("get_proof", "call_with_output_arg"),
-      ("prove", "call_with_output_arg"), ("verify", "call_with_bool_arg"), ("generate_rln_proof", "call_with_output_arg"),
-      ("generate_rln_proof_with_witness", "call_with_output_arg"), ("verify_rln_proof", "call_with_bool_arg"),
-      ("verify_with_roots", "call_with_bool_arg"), ("key_gen", "call_with_output_arg"), ("seeded_key_gen", "call_with_output_arg"),
-      ("extended_key_gen", "call_with_output_arg"), ("seeded_extended_key_gen", "call_with_output_arg"),
-      ("recover_id_secret", "call_with_output_arg"), ("set_metadata", "call"), ("get_metadata", "call_with_output_arg"),
-      ("flush", "call"), ("hash", "no_ctx_call_with_output_arg"), ("poseidon_hash", "no_ctx_call_with_output_arg")] := by decide
+    ∃ t, table = some t ∧ (t.map (·.name)).length = exportedNames.length ∧
+      (∀ n ∈ exportedNames, n ∈ t.map (·.name)) ∧ (∀ n ∈ t.map (·.name), n ∈ exportedNames) :=
+  ⟨_, rfl, by decide, by decide, by decide⟩
+
+/-- each wrapper is one of the four macros, a constructor, the direct accessor, or a hand-written body of the recognised
+    straight-line shape (`manual`: one call on the context with the function's own parameters — see tools/extract.py);
+    the verification entry points, whose verdict travels through a pointer, are not hand-written -/
+theorem C11_kinds_known :
+    ∃ t, table = some t ∧
+      t.all (fun r => r.kind ∈ ["constructor", "call", "call_with_output_arg", "call_with_bool_arg",
+                                "no_ctx_call_with_output_arg", "direct", "manual"]) = true ∧
+      t.all (fun r => !(r.name ∈ ["verify", "verify_rln_proof", "verify_with_roots"]) || r.kind == "call_with_bool_arg") = true :=
+  ⟨_, rfl, by decide, by decide⟩
 
 /-- the sequential batch wrapper starts at the current leaf count -/
 theorem C11_seq_batch_starts_at_leaf_count :
-    ∃ t r, table = some t ∧ r ∈ t ∧ r.name = "seq_atomic_operation" ∧ r.method = "atomic_operation" ∧
+    ∃ t, table = some t ∧ ∃ r ∈ t, r.name = "seq_atomic_operation" ∧ r.method = "atomic_operation" ∧
       r.args = ["ctx.process().leaves_set()", "leaves_buffer", "indices_buffer"] :=
-  ⟨_, ⟨"seq_atomic_operation", "call", "atomic_operation", ["ctx.process().leaves_set()", "leaves_buffer", "indices_buffer"], "",
-      ["ctx", "leaves_buffer", "indices_buffer"]⟩, rfl, by decide, rfl, rfl, rfl⟩
+  ⟨_, rfl, by decide⟩
 
 /-! ## what the macros report (model of `call!`, `call_with_output_arg!`, `call_with_bool_arg!`) -/
 
